@@ -155,18 +155,11 @@ class SharedMemoryFileBufferedCollection(FileBufferedCollection):
             # that implies a nesting of buffered contexts in which another
             # collection pointing to the same data flushed the buffer. This
             # object's data will still be pointing to that one, though, so the
-            # safest choice is to reinitialize its data from scratch.
-            with self._suspend_sync:
-                base = self._to_base()
-                if isinstance(base, dict):
-                    self._data = {
-                        key: self._from_base(data=value, parent=self)
-                        for key, value in base.items()
-                    }
-                else:
-                    self._data = [
-                        self._from_base(data=value, parent=self) for value in base
-                    ]
+            # safest choice is to stop sharing the container.
+            # A shallow copy stops sharing the container while keeping the
+            # nested collections, so that children retained by the user stay
+            # attached.
+            self._data = type(self._data)(self._data)
 
     def _load(self):
         """Load data from the backend but buffer if needed.
